@@ -99,8 +99,8 @@ STEER = [1, 2**64, 2**128 + 5, 2**192 + 2**64 * 3 + 9, N - 1, 0x0102030405060708
 def run(tier, seed, ck=None):
     own = ck is None
     ck = ck or Check('C07', tier, seed, level='model_checking')
-    lens = [0, 1, 31, 32, 33, 64] if tier == 'quick' else list(range(0, 67))
-    hexlens = [0, 1, 2, 63, 64, 65, 66] if tier == 'quick' else list(range(0, 70)) + [128, 129]
+    lens = [0, 1, 31, 32, 33, 64, 256, 288] if tier == 'quick' else list(range(0, 67)) + [255, 256, 257, 287, 288, 289, 544, 65568]   # 32 + k*256, 32 + 65536: lengths that alias 32 under a narrowing conversion
+    hexlens = [0, 1, 2, 63, 64, 65, 66, 576] if tier == 'quick' else list(range(0, 70)) + [128, 129, 512, 576, 577, 131136]
     jobs = []
     for l in lens:
         for via in (0, 1):
@@ -206,6 +206,14 @@ def run(tier, seed, ck=None):
         hb = sorted([n['n'] for n in r.nodes if n['op'] == 'var' and n['n'].startswith('hexbyte!')], key=lambda s: int(s.split('!')[1]))
         sub = type(r)(dict(r.d, paths=rest))
         decode_obligations(ck, sub, tag, l // 2, hb)
+    if any(not o['ok'] for o in ck.obls if o['id'].startswith('C07.')) and not ck.violations:
+        # a failed obligation without a model-driven witness (wrong-length inputs, views): the property's boundary battery
+        from props import fallback
+        path = ck.save_replay({'property': 'C07', 'cases': fallback.cases_for('C07', seed), 'failed': [o['id'] for o in ck.obls if not o['ok']][:8]})
+        ok, out = core.go_test(path)
+        if not ok and 'MISMATCH' in out:
+            ck.violation('battery', 'scalar encodings/decoders deviate from the canonical 32-byte big-endian form: %s' % [l.strip() for l in out.splitlines() if 'MISMATCH' in l][:1], path)
+            ck.inconclusive[:] = []
     if own:
         # the verdicts above are about single calls from the initial package state: histories (observe, scribble on returned slices, mutate, observe) must not change them
         from props import hidden
